@@ -128,7 +128,8 @@ def evaluate(case, stt):
     if exc is not None:
         stt.count("unparsable_render")
         raise AssertionError("generated source does not parse: " + exc[1] + "\n" + text)
-    got, exc = call_guard(lambda: PositionMarkVisitor().visit(tree))
+    visitor = PositionMarkVisitor()  # kept for the listing after the edit (an editing session keeps its visitor)
+    got, exc = call_guard(lambda: visitor.visit(tree))
     if exc is not None:
         fails.append(Failure("visitor:" + exc[0], f"{exc[1]}\n{text}"))
         return fails
@@ -182,6 +183,18 @@ def evaluate(case, stt):
     if exc is not None:
         fails.append(Failure("edit_breaks_source", f"replacing span {t[:4]} by {edited} gives a source that is rejected: {exc[1]}\n--- before:\n{text}\n--- after:\n{text2}"))
         return fails
+    # the listing of the edited text, made with the SAME visitor object, is the listing a new visitor gives
+    tree2, exc = call_guard(lambda: parse.parse_tree(text2))
+    if exc is None:
+        def as_tuples(ms):
+            return [(m.line_number, m.column_number, m.end_line_number, m.end_column_number, m.name, m.x_offset, m.y_offset, m.x_relative, m.y_relative) for m in ms]
+
+        again, exc_a = call_guard(lambda: as_tuples(visitor.visit(tree2)))
+        fresh, exc_f = call_guard(lambda: as_tuples(PositionMarkVisitor().visit(tree2)))
+        if exc_a is not None or exc_f is not None:
+            fails.append(Failure("second_listing:" + (exc_a or exc_f)[0], (exc_a or exc_f)[1]))
+        elif again != fresh:
+            fails.append(Failure("second_listing_with_the_same_visitor", f"{len(again)} entries, a new visitor lists {len(fresh)}: {again[:3]} vs {fresh[:3]}\n--- after:\n{text2}"))
     a, b = canon.canon_ops(comp.routine_ops), canon.canon_ops(comp2.routine_ops)
     want = ("p", t[4], nx, ny, nxo > 1, t[6] > 1)
     old = ("p", t[4], t[7], t[8], t[5] > 1, t[6] > 1)
